@@ -22,9 +22,12 @@ type Result struct {
 	Size    int
 	OK      bool // obligation discharged (or cover not refuted)
 	Tried   []string
+	Part    int
 }
 
-func (fe *FnEnc) query(o *Obl, withModel bool) string {
+func (fe *FnEnc) query(o *Obl, withModel bool) string { return fe.queryPart(o, -1, withModel) }
+
+func (fe *FnEnc) queryPart(o *Obl, part int, withModel bool) string {
 	var sb strings.Builder
 	sb.WriteString("; obligation " + o.ID + "\n")
 	sb.WriteString(preamble)
@@ -39,7 +42,11 @@ func (fe *FnEnc) query(o *Obl, withModel bool) string {
 	if o.Cover {
 		sb.WriteString("(assert " + o.PC.S + ")\n")
 	} else {
-		sb.WriteString("(assert " + tAnd(o.PC, tNot(o.Goal)).S + ")\n")
+		g := o.Goal
+		if part >= 0 {
+			g = o.Parts[part]
+		}
+		sb.WriteString("(assert " + tAnd(o.PC, tNot(g)).S + ")\n")
 	}
 	sb.WriteString("(check-sat)\n")
 	if withModel {
@@ -59,6 +66,13 @@ var solvers = map[string]solverSpec{
 	}},
 	"z3": {"z3", func(f string, t, seed int) []string {
 		return []string{fmt.Sprintf("-T:%d", t), fmt.Sprintf("smt.random_seed=%d", seed), f}
+	}},
+	// pure E-matching (the configuration program verifiers use): decides most quantified goals at once
+	"z3-new/ematch": {"z3-new", func(f string, t, seed int) []string {
+		return []string{fmt.Sprintf("-T:%d", t), "smt.auto_config=false", "smt.mbqi=false", fmt.Sprintf("smt.random_seed=%d", seed), f}
+	}},
+	"z3/ematch": {"z3", func(f string, t, seed int) []string {
+		return []string{fmt.Sprintf("-T:%d", t), "smt.auto_config=false", "smt.mbqi=false", fmt.Sprintf("smt.random_seed=%d", seed), f}
 	}},
 	"cvc5": {"cvc5", func(f string, t, seed int) []string {
 		return []string{fmt.Sprintf("--tlimit=%d", t*1000), fmt.Sprintf("--seed=%d", seed), f}
@@ -100,11 +114,44 @@ func cvc5File(file string) string {
 
 // solve discharges one obligation: z3-new first, then z3 4.8.12 and cvc5.
 func solveOne(fe *FnEnc, o *Obl, dir string, timeout, seed int, escalate bool) Result {
-	qtext := fe.query(o, false)
+	if len(o.Parts) > 1 {
+		// every conjunct is its own query; the obligation is discharged when all are
+		var agg Result
+		agg.Obl = o
+		agg.OK = true
+		for i := range o.Parts {
+			r := solvePart(fe, o, i, dir, timeout, seed, escalate)
+			agg.Secs += r.Secs
+			agg.Size += r.Size
+			agg.Tried = append(agg.Tried, r.Tried...)
+			if agg.Solver == "" {
+				agg.Solver = r.Solver
+			}
+			if !r.OK {
+				agg.OK = false
+				agg.Status, agg.Solver, agg.Output, agg.File, agg.Part = r.Status, r.Solver, r.Output, r.File, i
+				if r.Status == "sat" {
+					break
+				}
+			}
+		}
+		if agg.OK {
+			agg.Status = "unsat"
+		}
+		return agg
+	}
+	return solvePart(fe, o, -1, dir, timeout, seed, escalate)
+}
+
+func solvePart(fe *FnEnc, o *Obl, part int, dir string, timeout, seed int, escalate bool) Result {
+	qtext := fe.queryPart(o, part, false)
 	name := sanitizeFile(o.ID)
+	if part >= 0 {
+		name += fmt.Sprintf(".part%d", part)
+	}
 	file := filepath.Join(dir, name+".smt2")
 	_ = os.WriteFile(file, []byte(qtext), 0o644)
-	res := Result{Obl: o, File: file, Size: len(qtext)}
+	res := Result{Obl: o, File: file, Size: len(qtext), Part: part}
 	want := "unsat"
 	try := func(s string) bool {
 		f := file
@@ -112,6 +159,9 @@ func solveOne(fe *FnEnc, o *Obl, dir string, timeout, seed int, escalate bool) R
 			f = cvc5File(file)
 		}
 		st, out, secs := runSolver(s, f, timeout, seed)
+		if st == "unknown" && strings.Contains(s, "ematch") {
+			st = "unknown" // incomplete instantiation: not an answer
+		}
 		res.Tried = append(res.Tried, fmt.Sprintf("%s:%s:%.1fs", s, st, secs))
 		res.Secs += secs
 		if res.Status == "" || st == "unsat" || st == "sat" {
@@ -125,15 +175,21 @@ func solveOne(fe *FnEnc, o *Obl, dir string, timeout, seed int, escalate bool) R
 	// staged: a short z3-new attempt decides most goals; z3 4.8.12 proves several quantified goals
 	// z3-new gives up on (and vice versa); cvc5 last
 	full := timeout
-	timeout = max(2, full/4)
-	done := try("z3-new")
+	timeout = max(2, full/2)
+	done := try("z3-new/ematch")
+	if !done {
+		timeout = max(2, full/2)
+		done = try("z3-new")
+	}
 	if !done {
 		timeout = full
-		done = try("z3")
+		done = try("z3/ematch")
 	}
 	if !done && escalate {
-		if !try("z3-new") {
-			try("cvc5")
+		if !try("z3") {
+			if !try("z3-new") {
+				try("cvc5")
+			}
 		}
 	}
 	if o.Cover {
